@@ -218,6 +218,13 @@ func kindGrid(progs []*c19Prog, baseSeed uint64) []*Scenario {
 	mk(flat, func(s *Scenario) { s.Cwd = "root" })
 	mk(flat, func(s *Scenario) { s.BOM = true })
 	mk(flat, func(s *Scenario) { s.MixedEOL = 7 })
+	for _, cl := range []uint64{1 << 40, 1<<40 | 0x1555555, 1<<40 | 0x2aaaaaa} { // helper names taken by directories / read-only files / dangling links
+		for _, dk := range []string{"absent", "longer"} {
+			cl, dk := cl, dk
+			mk(flat, func(s *Scenario) { s.Clutter, s.DstKind = cl, dk })
+			mk(coff, func(s *Scenario) { s.Clutter, s.DstKind, s.Uid = cl, dk, nobody })
+		}
+	}
 	// encodings x locales (a locale must never decide how the source is read), with and without a leading comment
 	for _, e := range []string{"sjis", "utf8"} {
 		for li, loc := range []string{"LANG=ja_JP.UTF-8", "LC_ALL=ja_JP.UTF-8", "LC_CTYPE=ja_JP.SJIS", "LANG=ja_JP.eucJP", "LC_ALL=C", "LANG=en_US.UTF-8"} {
@@ -292,6 +299,9 @@ func (c *c19Ctx) genScenario(seed uint64, progs []*c19Prog) *Scenario {
 		s.MixedEOL = r.U64() | 1
 	}
 	s.NoLead = r.Chance(1, 4)
+	if r.Chance(1, 10) {
+		s.Clutter = r.U64() | 1<<40
+	}
 	if !s.CRLF && s.RawSrc == "" && r.Chance(1, 14) {
 		s.BareCR = true // whole file, or (with MixedEOL) some of the lines
 	}
